@@ -65,6 +65,18 @@ class Tr:
             return f"(starts_with {self.text(e.args[0], env)} {self.text(e.func.value, env)})"
         if ast.unparse(e) == "hasattr(socket, 'AF_UNIX')":
             return "true"
+        if ast.unparse(e) in getattr(self, "flags", {}):
+            if ast.unparse(e).startswith("key.") and env.get("key") != ("text", "key"):
+                raise GenError("a method of `key` is called after `key` was reassigned: " + ast.unparse(e))
+            return self.flags[ast.unparse(e)]
+        if (isinstance(e, ast.Compare) and len(e.ops) == 1 and isinstance(e.ops[0], ast.In)
+                and ast.unparse(e.comparators[0]) in getattr(self, "consts", {})):
+            # str in str: substring
+            return f"(is_substring {self.text(e.left, env)} {self.consts[ast.unparse(e.comparators[0])]})"
+        if (isinstance(e, ast.Compare) and len(e.ops) == 1 and isinstance(e.ops[0], ast.Eq) and isinstance(e.left, ast.Call)
+                and ast.unparse(e.left.func) == "len" and isinstance(e.left.args[0], ast.Name)
+                and env.get(e.left.args[0].id, (None,))[0] == "text" and isinstance(e.comparators[0], ast.Constant)):
+            return f"(Nat.eqb (List.length {env[e.left.args[0].id][1]}) {int(e.comparators[0].value)})"
         if isinstance(e, ast.Call) and ast.unparse(e.func) == "os.path.exists" and len(e.args) == 1:
             return f"(exists_ {self.text(e.args[0], env)})"
         if isinstance(e, ast.Name) and env.get(e.id, (None,))[0] == "bool":
@@ -119,6 +131,8 @@ class Tr:
             return cont(env)
         if isinstance(st, ast.Raise):
             return "None"
+        if isinstance(st, ast.Return) and getattr(self, "return_hook", None) is not None:
+            return self.return_hook(st, env)
         if isinstance(st, ast.Return):
             if not (isinstance(st.value, ast.Tuple) and len(st.value.elts) == 3):
                 raise GenError("expected `return family, host, port`")
@@ -154,6 +168,19 @@ class Tr:
                 return f"(let '({a}, {f}, {b}) := partition_on {one_char(val.args[0])} {src} in {cont(env2)})"
             if isinstance(tgt, ast.Name):
                 env2 = dict(env)
+                if (isinstance(val, ast.BinOp) and isinstance(val.op, ast.Mod) and isinstance(val.left, ast.Constant)
+                        and isinstance(val.left.value, str) and val.left.value.count("%") == 1 and "%c" in val.left.value):
+                    # "...%c..." % t: t must be one character (TypeError otherwise)
+                    pre, post = val.left.value.split("%c")
+                    lit = lambda z: "[" + "; ".join(str(ord(ch)) for ch in z) + "]"  # noqa: E731
+                    v, ch = self.fresh(tgt.id), self.fresh("c")
+                    env2[tgt.id] = ("text", v)
+                    return (f"(match {self.text(val.right, env)} with [{ch}] => (let {v} := {lit(pre)} ++ [{ch}] ++ {lit(post)} in {cont(env2)}) "
+                            f"| _ => None end)")
+                if isinstance(val, ast.List) and val.elts:
+                    v = self.fresh(tgt.id)
+                    env2[tgt.id] = ("list", v)
+                    return f"(let {v} := [{'; '.join(self.text(x, env) for x in val.elts)}] in {cont(env2)})"
                 if isinstance(val, ast.Call) and isinstance(val.func, ast.Attribute) and val.func.attr == "split" and len(val.args) == 1:
                     v = self.fresh(tgt.id)
                     env2[tgt.id] = ("list", v)
@@ -195,7 +222,59 @@ def main():
         open(OUT, "w").write(new)
 
 
+def decode_key():
+    """client.VNCDoToolClient._decodeKey -> Gen/DecodeKey.v"""
+    from exprs import method
+    client = parse("client.py")
+    fn = method(client, "VNCDoToolClient", "_decodeKey")
+    if [a.arg for a in fn.args.args] != ["self", "key"]:
+        raise GenError("_decodeKey no longer takes (self, key)")
+    tr = Tr()
+    tr.flags = {"self.factory.force_caps": "force_caps", "key.isupper()": "isupper"}
+    tr.consts = {"self.SPECIAL_KEYS_US": "SPECIAL_KEYS_US"}
+
+    def ret(st, env):
+        v = st.value
+        if not (isinstance(v, ast.ListComp) and len(v.generators) == 1 and not v.generators[0].ifs
+                and isinstance(v.generators[0].target, ast.Name) and isinstance(v.generators[0].iter, ast.Name)
+                and env.get(v.generators[0].iter.id, (None,))[0] == "list"):
+            raise GenError("_decodeKey: expected `return [<code of k> for k in keys]`")
+        k = v.generators[0].target.id
+        if ast.unparse(v.elt) != f"KEYMAP.get({k}) or ord({k})":
+            raise GenError("_decodeKey: the code of a key is no longer `KEYMAP.get(k) or ord(k)`: " + ast.unparse(v.elt))
+        return f"(all_some (map gen_key_elt {env[v.generators[0].iter.id][1]}))"
+    tr.return_hook = ret
+
+    def fell_off(env):
+        raise GenError("a path of _decodeKey ends without return")
+    term = tr.block(fn.body, {"key": ("text", "key")}, fell_off)
+    if "isupper" in term.split("let key")[-1] and False:
+        pass
+    out = ["(** GENERATED by gen/server.py from VNCDoToolClient._decodeKey - do not edit. *)",
+           "From Coq Require Import ZArith List Bool.", "From VD Require Import Base.Bytes Base.Text Gen.Tables Model.Keys.",
+           "Import ListNotations.", "Open Scope Z_scope.", "",
+           "(* ord(k): a string of one character *)",
+           "Definition py_ord (k : text) : option Z := match k with [c] => Some c | _ => None end.", "",
+           "(* KEYMAP.get(k) or ord(k): the table's value unless it is missing or 0 *)",
+           "Definition gen_key_elt (k : text) : option Z :=",
+           "  match assoc_text k KEYMAP with Some v => if v =? 0 then py_ord k else Some v | None => py_ord k end.", "",
+           "(* [isupper] is the value of key.isupper() for the key as passed in (Unicode case tables are not modelled) *)",
+           "Definition gen_decode_key (force_caps isupper : bool) (key : text) : option (list Z) :=",
+           "  " + term + ".", ""]
+    outp = os.path.join(os.path.dirname(OUT), "DecodeKey.v")
+    new = "\n".join(out)
+    if not os.path.exists(outp) or open(outp).read() != new:
+        open(outp, "w").write(new)
+
+
 if __name__ == "__main__":
+    if len(sys.argv) > 1 and sys.argv[1] == "decodekey":
+        try:
+            decode_key()
+        except GenError as e:
+            print("gen/server.py decodekey: " + str(e), file=sys.stderr)
+            sys.exit(2)
+        sys.exit(0)
     try:
         main()
     except GenError as e:
